@@ -2,8 +2,8 @@ package main
 
 import (
 	"fmt"
-	"os"
 	"go/types"
+	"os"
 	"sort"
 	"strings"
 
@@ -11,8 +11,8 @@ import (
 
 	"verif/internal/absint"
 	"verif/internal/engine/b"
-	"verif/internal/pt"
 	"verif/internal/load"
+	"verif/internal/pt"
 	"verif/internal/rep"
 	"verif/internal/ssau"
 )
@@ -24,10 +24,10 @@ func ruleSchedules(r *rep.Report, p *load.Program) {
 }
 
 type schedEvent struct {
-	kind        string // choose | add | dbl | mul-d | init
-	pos, digit  int
-	what        string
-	pos0        string
+	kind       string // choose | add | dbl | mul-d | init
+	pos, digit int
+	what       string
+	pos0       string
 }
 
 // ruleScheduleBase: ScalarmultBaseNiels. Row group pos of the table holds (j+1)·256^pos·B, digit i of the radix-16
@@ -197,7 +197,11 @@ func ruleScheduleBase(r *rep.Report, p *load.Program) {
 		}
 	}
 	// weights
-	type term struct{ pos, dbl int; what string; n int }
+	type term struct {
+		pos, dbl int
+		what     string
+		n        int
+	}
 	terms := map[int]*term{}
 	addTerm := func(d, pos int, what string) {
 		if t, ok := terms[d]; ok {
@@ -245,7 +249,7 @@ func ruleScheduleBase(r *rep.Report, p *load.Program) {
 			note(fmt.Sprintf("digit %d is looked up at table position %d, want %d", i, t.pos, i/2))
 		case t.dbl != 4*(i%2):
 			note(fmt.Sprintf("digit %d is doubled %d times after it is added, want %d", i, t.dbl, 4*(i%2)))
-		case t.pos == 0 && t.what == "" :
+		case t.pos == 0 && t.what == "":
 			note(fmt.Sprintf("digit %d: a position-0 entry (t = 2xy) is added through the niels formula without multiplying t by d", i))
 		case t.pos == 0 && t.what == "initt2d*d":
 			note(fmt.Sprintf("digit %d: the initial extended point takes t = 2xy, but t was multiplied by d", i))
